@@ -112,6 +112,10 @@ impl MqttShared {
         self.io.tag()
     }
 
+    pub(super) fn notify_dispatcher(&self) {
+        self.io.notify_dispatcher();
+    }
+
     pub(super) fn close(&self) {
         if self.flags.get().contains(Flags::CLIENT) && !self.is_disconnect_sent() {
             let _ = self.encode_packet(codec::Packet::Disconnect);
